@@ -69,7 +69,7 @@ var extCode = map[string]uint16{
 }
 
 var sniName = map[string]string{
-	"pub": "Public-k.Example.COM", "pubKelvin": "Public-\u212a.Example.COM", "priv": "Private.Example.COM", "other": "other.example.net", "pubB": "public-b.example.org", "": "",
+	"pub": "Public-k.Example.COM", "pubKelvin": "Public-\u212a.Example.COM", "priv": "Private-k.Example.COM", "privKelvin": "Private-\u212a.Example.COM", "other": "other.example.net", "pubB": "public-b.example.org", "": "",
 }
 var alpnList = map[string][]string{"ao": {"http/1.1"}, "ai": {"h3", "h2", "http/1.1"}, "": nil}
 
